@@ -215,6 +215,9 @@ type Thread struct {
 	start  func(t *Thread)
 	inMon  bool
 	name   string
+	recoverable *goPanic // the panic a deferred function may recover right now
+	deferDepth  int
+	recovered   bool
 	isFresh  bool   // has not been scheduled since its thread-local prefix
 	spawnKey string // go statement + argument identities (symmetry class)
 }
